@@ -405,7 +405,10 @@ impl Wallet {
                         //
                         if input.amount > 0 && input.public_key == self.public_key {
                             wallet_changed |= WALLET_UPDATED;
-                            self.add_slip(block.id, tx_index, input, true, None);
+                            // the output comes back under the coordinates it has in the
+                            // utxoset : those of the transaction that created it, not of
+                            // the transaction being unwound
+                            self.add_slip(input.block_id, input.tx_ordinal, input, true, None);
                         }
                         i += 1;
                     }
